@@ -22,7 +22,7 @@ try:
         rc1 = sh("timeout 600 /venv/bin/python %s" % demo, env=env)[0] if os.path.exists(demo) else None
         nf, npass, failed = tests(wt)
         sh("git -C %s checkout -- . && git -C %s clean -fdq" % (wt, wt))
-        ok = (rc0 in (0, None)) and (rc1 not in (0,)) and nf == 1 and npass == 92
+        ok = (rc0 in (0, None)) and (rc1 not in (0,)) and (nf, npass) in ((0, 93), (1, 92))
         print(n, "RECONFIRMED" if ok else "REJECTED", "demo clean rc=%s patched rc=%s tests=%s/%s" % (rc0, rc1, nf, npass))
         if ok:
             m = json.load(open(os.path.join(d, "meta.json")))
